@@ -6,7 +6,9 @@ Build graphs and the executable well-formedness checker (generic in the node typ
   2. no path is produced twice (implicit outputs included, duplicates inside one statement included),
   3. the dependency relation is acyclic (Kahn rounds on the edge list),
   4. every input (explicit, implicit, order-only, validation) is in `fs` or produced by a statement,
-  5. for every `(root, t) ∈ reqs`, `t` is needed by `root` (backward closure along edges).
+  5. for every `(root, t) ∈ reqs`, `t` is needed by `root` (backward closure along edges),
+  6. every pool a statement is bound to is declared or `console`, no pool is declared twice,
+  7. every `default` target is produced by a statement.
 
 The declarative counterpart `WellFormed` is at the end; `GraphLemmas.lean` proves `wellFormed … = true ↔ WellFormed …`.
 Core Lean only (linked into the driver).
@@ -25,15 +27,22 @@ structure Edge (α : Type) where
   ins : List α
   /-- validations (`|@`): must be buildable and are built along, but are not dependencies -/
   vals : List α := []
+  /-- the `pool` binding in effect for the statement (its own, else its rule's); empty = the default pool -/
+  pool : Str := []
   deriving Repr
 
 structure Graph (α : Type) where
   rules : List Str
   edges : List (Edge α)
   defaults : List α := []
+  /-- names of the `pool` declarations, in file order -/
+  pools : List Str := []
   deriving Repr
 
 def phony : Str := "phony".toList
+
+/-- the pool Ninja always has -/
+def console : Str := "console".toList
 
 variable {α : Type} [DecidableEq α]
 
@@ -112,10 +121,23 @@ def reachSet (es : List (Edge α)) (root : α) : List α := reachLoop es.length 
 def reqsOk (es : List (Edge α)) (reqs : List (α × α)) : Bool :=
   reqs.all (fun rt => decide (rt.2 ∈ reachSet es rt.1))
 
+/-! ### clauses 6, 7: the other declarations of a manifest (pools, default targets) -/
+
+def poolOk (pools : List Str) (e : Edge α) : Bool :=
+  decide (e.pool = []) || decide (e.pool = console) || decide (e.pool ∈ pools)
+
+/-- every pool a statement is bound to is declared (or `console`); no pool is declared twice; `console` is not redeclared -/
+def poolsB (g : Graph α) : Bool :=
+  g.edges.all (poolOk g.pools) && nodupB g.pools && !decide (console ∈ g.pools)
+
+/-- every `default` target is produced by a statement -/
+def defaultsB (g : Graph α) : Bool := g.defaults.all (fun d => producedBy g.edges d)
+
 /-! ### the checker -/
 
 def wellFormed (g : Graph α) (fs : List α) (reqs : List (α × α)) : Bool :=
   rulesDefined g && outputsDisjoint g.edges && acyclicB g.edges && closedB fs g.edges && reqsOk g.edges reqs
+    && poolsB g && defaultsB g
 
 /-! ### declarative specification -/
 
@@ -150,5 +172,11 @@ structure WellFormed (g : Graph α) (fs : List α) (reqs : List (α × α)) : Pr
   closed : ∀ e ∈ g.edges, ∀ i, i ∈ e.ins ++ e.vals → i ∈ fs ∨ ∃ e' ∈ g.edges, i ∈ e'.outs
   /-- every required target is reached from its root -/
   reach : ∀ rt ∈ reqs, Star (Need g.edges) rt.1 rt.2
+  /-- every pool a statement is bound to is declared (or is the built-in `console`) -/
+  poolsBound : ∀ e ∈ g.edges, e.pool = [] ∨ e.pool = console ∨ e.pool ∈ g.pools
+  /-- no pool is declared twice, `console` is not redeclared -/
+  poolsUnique : g.pools.Nodup ∧ console ∉ g.pools
+  /-- every `default` target is produced by a statement -/
+  defaultsProduced : ∀ d ∈ g.defaults, ∃ e ∈ g.edges, d ∈ e.outs
 
 end MesonModel.Ninja
